@@ -102,7 +102,9 @@ macro_rules! encode_set {
                     }
                 }
 
-                set
+                // a literal `%` must always be escaped, otherwise it is taken
+                // for the start of an escape sequence when parsed again
+                set.add(b'%')
             };
         }
     };
